@@ -232,6 +232,71 @@ var panicSelectors = map[string]bool{
 	"CallEVM": true, "CallEVMWithData": true,
 }
 
+// telemetryClockReads returns the positions of the time.Now() calls of [body] whose value can only reach the metrics
+// sink: the call is an argument of a telemetry.* call, or it initialises a variable every use of which is such an
+// argument. Nothing of it can be written to state or decide a branch.
+func telemetryClockReads(body *ast.BlockStmt) map[token.Pos]bool {
+	res := map[token.Pos]bool{}
+	isNow := func(e ast.Expr) (*ast.CallExpr, bool) {
+		c, ok := e.(*ast.CallExpr)
+		if !ok {
+			return nil, false
+		}
+		s, ok := c.Fun.(*ast.SelectorExpr)
+		if !ok || s.Sel.Name != "Now" {
+			return nil, false
+		}
+		id, ok := s.X.(*ast.Ident)
+		return c, ok && id.Name == "time"
+	}
+	isTelemetry := func(c *ast.CallExpr) bool {
+		s, ok := c.Fun.(*ast.SelectorExpr)
+		if !ok {
+			return false
+		}
+		id, ok := s.X.(*ast.Ident)
+		return ok && id.Name == "telemetry"
+	}
+	// identifiers used as a direct argument of a telemetry call
+	inTelemetry := map[token.Pos]bool{}
+	ast.Inspect(body, func(n ast.Node) bool {
+		if c, ok := n.(*ast.CallExpr); ok && isTelemetry(c) {
+			for _, a := range c.Args {
+				if nc, ok := isNow(a); ok {
+					res[nc.Pos()] = true
+				}
+				if id, ok := a.(*ast.Ident); ok {
+					inTelemetry[id.Pos()] = true
+				}
+			}
+		}
+		return true
+	})
+	ast.Inspect(body, func(n ast.Node) bool {
+		as, ok := n.(*ast.AssignStmt)
+		if !ok || as.Tok != token.DEFINE || len(as.Lhs) != 1 || len(as.Rhs) != 1 {
+			return true
+		}
+		v, ok := as.Lhs[0].(*ast.Ident)
+		nc, isnow := isNow(as.Rhs[0])
+		if !ok || !isnow || v.Name == "_" {
+			return true
+		}
+		only := true
+		ast.Inspect(body, func(m ast.Node) bool {
+			if id, ok := m.(*ast.Ident); ok && id.Name == v.Name && id.Pos() != v.Pos() && !inTelemetry[id.Pos()] {
+				only = false
+			}
+			return true
+		})
+		if only {
+			res[nc.Pos()] = true
+		}
+		return true
+	})
+	return res
+}
+
 func isMapType(e ast.Expr) bool {
 	_, ok := e.(*ast.MapType)
 	return ok
@@ -435,6 +500,7 @@ func runInventoryCmd(args []string) {
 						fmt.Printf("MAP\t%s|%s|%s|%s\t%s|%s|%s|%s\n", rel, fn, kind, exprText(fset, n), rel, fn, kind, shapeText(fset, n, pkgs))
 					}
 				}
+				metricsOnly := telemetryClockReads(fd.Body)
 				ast.Inspect(fd.Body, func(n ast.Node) bool {
 					switch x := n.(type) {
 					case *ast.CallExpr:
@@ -449,7 +515,7 @@ func runInventoryCmd(args []string) {
 								panicSites = append(panicSites, fmt.Sprintf("%s|%s|call:%s|%s", rel, fn, f.Sel.Name, shapeText(fset, x.Fun, pkgs)))
 							}
 							if id, ok := f.X.(*ast.Ident); ok {
-								if id.Name == "time" && (f.Sel.Name == "Now" || f.Sel.Name == "Since") {
+								if id.Name == "time" && (f.Sel.Name == "Now" || f.Sel.Name == "Since") && !metricsOnly[x.Pos()] {
 									add(&clockSites, "clock", x)
 								}
 								if id.Name == "rand" {
